@@ -1,0 +1,270 @@
+//go:build verif
+
+package pipeline
+
+import (
+	"fmt"
+	"strings"
+	"sync"
+	"sync/atomic"
+	"time"
+	"unsafe"
+)
+
+// Verification-only exports for C04 / C05 (build tag `verif`): the two event pools, the
+// streamer and single streams driven directly by a harness. Nothing here is compiled into
+// normal builds and nothing here changes behaviour: the wrappers only call the unexported
+// functions and read unexported fields.
+
+// verifCondWaiters returns the number of goroutines that have entered c.Wait() (their
+// notifyListAdd is done, so a later Signal/Broadcast reaches them) and were not notified yet.
+// Layout of sync.Cond: noCopy (0 bytes), L Locker (2 words), notify notifyList{wait, notify uint32, …}.
+func verifCondWaiters(c *sync.Cond) int {
+	base := unsafe.Pointer(c)
+	off := unsafe.Offsetof(c.L) + unsafe.Sizeof(c.L)
+	wait := atomic.LoadUint32((*uint32)(unsafe.Add(base, off)))
+	notify := atomic.LoadUint32((*uint32)(unsafe.Add(base, off+4)))
+	return int(int32(wait - notify))
+}
+
+// VerifPool wraps one of the two event pools.
+type VerifPool struct {
+	p   pool
+	std *eventPool
+	lm  *lowMemoryEventPool
+	idx map[*Event]int
+}
+
+// VerifNewPool builds a pool of the given kind ("std" | "lowmem") whose heartbeat
+// (wakeupWaiters) sleeps `wakeup` between rounds instead of 5 s.
+func VerifNewPool(kind string, capacity int, wakeup time.Duration) *VerifPool {
+	v := &VerifPool{idx: map[*Event]int{}}
+	switch kind {
+	case "std":
+		v.std = newEventPool(capacity, 1024)
+		v.std.wakeupInterval = wakeup
+		for i, e := range v.std.events {
+			v.idx[e] = i
+		}
+		v.p = v.std
+	default:
+		v.lm = newLowMemoryEventPool(capacity)
+		v.lm.wakeupInterval = wakeup
+		v.p = v.lm
+	}
+	return v
+}
+
+func (v *VerifPool) Get(size int) *Event { return v.p.get(size) }
+func (v *VerifPool) Back(e *Event)       { v.p.back(e) }
+func (v *VerifPool) InUse() int64        { return v.p.inUse() }
+func (v *VerifPool) Waiters() int64      { return v.p.waiters() }
+func (v *VerifPool) Stop()               { v.p.stop() }
+
+// InUseRaw is the raw in-use counter (the low-memory pool's inUse() clips it to capacity).
+func (v *VerifPool) InUseRaw() int64 {
+	if v.std != nil {
+		return v.std.inUseEvents.Load()
+	}
+	return v.lm.inUseEvents.Load()
+}
+
+// CondWaiters is the number of readers parked in getCond.Wait.
+func (v *VerifPool) CondWaiters() int {
+	if v.std != nil {
+		return verifCondWaiters(v.std.getCond)
+	}
+	return verifCondWaiters(v.lm.getCond)
+}
+
+// EventIndex is the initial slot of an event of the standard pool (-1 for the low-memory pool).
+func (v *VerifPool) EventIndex(e *Event) int {
+	if i, ok := v.idx[e]; ok {
+		return i
+	}
+	return -1
+}
+
+// Slots dumps the standard pool's slots as "<free1><free2><event index|->" per slot.
+func (v *VerifPool) Slots() string {
+	if v.std == nil {
+		return "-"
+	}
+	var sb strings.Builder
+	for i := 0; i < v.std.capacity; i++ {
+		if i > 0 {
+			sb.WriteByte(',')
+		}
+		b := func(x bool) byte {
+			if x {
+				return '1'
+			}
+			return '0'
+		}
+		sb.WriteByte(b(v.std.free1[i].Load()))
+		sb.WriteByte(b(v.std.free2[i].Load()))
+		if e := v.std.events[i]; e != nil {
+			fmt.Fprintf(&sb, "%d", v.EventIndex(e))
+		} else {
+			sb.WriteByte('-')
+		}
+	}
+	return sb.String()
+}
+
+// VerifPipelinePool reports the pool state of a pipeline: raw in-use counter and waiters.
+func VerifPipelinePool(p *Pipeline) (inUse int64, waiters int64) {
+	switch ep := p.eventPool.(type) {
+	case *eventPool:
+		return ep.inUseEvents.Load(), ep.waiters()
+	case *lowMemoryEventPool:
+		return ep.inUseEvents.Load(), ep.waiters()
+	}
+	return p.eventPool.inUse(), p.eventPool.waiters()
+}
+
+// VerifSetPoolWakeup shortens the heartbeat of a pipeline's pool (call before Start).
+func VerifSetPoolWakeup(p *Pipeline, d time.Duration) {
+	switch ep := p.eventPool.(type) {
+	case *eventPool:
+		ep.wakeupInterval = d
+	case *lowMemoryEventPool:
+		ep.wakeupInterval = d
+	}
+}
+
+// VerifStreamer wraps a streamer whose heartbeat goroutine is NOT started: the harness calls
+// Heartbeat() for one round.
+type VerifStreamer struct {
+	s  *streamer
+	mu sync.Mutex
+	ev map[int64]*Event
+}
+
+func VerifNewStreamer(eventTimeout time.Duration) *VerifStreamer {
+	return &VerifStreamer{s: newStreamer(eventTimeout), ev: map[int64]*Event{}}
+}
+
+// Put makes a fresh regular event with the given offset and puts it on the stream.
+func (v *VerifStreamer) Put(streamID uint64, name string, off int64) uint64 {
+	e := &Event{Offset: off, SourceID: SourceID(streamID)}
+	v.mu.Lock()
+	v.ev[off] = e
+	v.mu.Unlock()
+	return v.s.putEvent(StreamID(streamID), StreamName(name), e)
+}
+
+// Join is joinStream: blocks until a charged stream exists; nil when released by Release.
+func (v *VerifStreamer) Join() *VerifStream {
+	st := v.s.joinStream()
+	if st == nil {
+		return nil
+	}
+	return &VerifStream{st: st, v: v}
+}
+
+// Release makes every goroutine parked in Join return nil (end of a scenario).
+func (v *VerifStreamer) Release() {
+	v.s.shouldStop.Store(true)
+	v.s.chargedMu.Lock()
+	v.s.chargedCond.Broadcast()
+	v.s.chargedMu.Unlock()
+}
+
+// JoinWaiters is the number of goroutines parked in joinStream.
+func (v *VerifStreamer) JoinWaiters() int { return verifCondWaiters(v.s.chargedCond) }
+
+func (v *VerifStreamer) SetEventTimeout(d time.Duration) { v.s.eventTimeout = d }
+
+// Heartbeat runs one round of streamer.heartbeat's body; returns how many streams got a time-out.
+func (v *VerifStreamer) Heartbeat() int {
+	v.s.blockedMu.Lock()
+	streams := append([]*stream(nil), v.s.blocked...)
+	v.s.blockedMu.Unlock()
+	n := 0
+	for _, st := range streams {
+		if st.tryUnblock() {
+			n++
+		}
+	}
+	return n
+}
+
+// Charged lists the stream ids in streamer.charged (bottom … top; joinStream pops the top).
+func (v *VerifStreamer) Charged() []uint64 {
+	v.s.chargedMu.Lock()
+	defer v.s.chargedMu.Unlock()
+	out := make([]uint64, 0, len(v.s.charged))
+	for _, st := range v.s.charged {
+		out = append(out, uint64(st.streamID))
+	}
+	return out
+}
+
+// Blocked lists the stream ids in streamer.blocked.
+func (v *VerifStreamer) Blocked() []uint64 {
+	v.s.blockedMu.Lock()
+	defer v.s.blockedMu.Unlock()
+	out := make([]uint64, 0, len(v.s.blocked))
+	for _, st := range v.s.blocked {
+		out = append(out, uint64(st.streamID))
+	}
+	return out
+}
+
+// StreamState returns "len cur away commit attached detaching nonempty" of a stream.
+func (v *VerifStreamer) StreamState(streamID uint64, name string) string {
+	st := v.s.getStream(StreamID(streamID), StreamName(name))
+	st.mu.Lock()
+	defer st.mu.Unlock()
+	b := func(x bool) int {
+		if x {
+			return 1
+		}
+		return 0
+	}
+	return fmt.Sprintf("%d %d %d %d %d %d %d", st.len, st.currentSeq, st.awaySeq, st.commitSeq.Load(),
+		b(st.isAttached), b(st.isDetaching), b(st.first != nil))
+}
+
+// Commit is stream.commit for the event put with this offset.
+func (v *VerifStreamer) Commit(off int64) bool {
+	v.mu.Lock()
+	e := v.ev[off]
+	v.mu.Unlock()
+	if e == nil || e.stream == nil {
+		return false
+	}
+	e.stream.commit(e)
+	return true
+}
+
+// VerifStream is a stream owned by the caller of Join.
+type VerifStream struct {
+	st *stream
+	v  *VerifStreamer
+}
+
+func (x *VerifStream) ID() uint64 { return uint64(x.st.streamID) }
+
+// BlockWaiters is the number of goroutines parked in blockGet's cond.Wait.
+func (x *VerifStream) BlockWaiters() int { return verifCondWaiters(x.st.cond) }
+
+func verifEvTriple(e *Event) (off int64, seq uint64, kind int) {
+	return e.Offset, e.SeqID, int(e.kind)
+}
+
+// InstantGet: ok=false means the stream was empty and the caller left it.
+func (x *VerifStream) InstantGet() (off int64, seq uint64, kind int, ok bool) {
+	e := x.st.instantGet()
+	if e == nil {
+		return 0, 0, 0, false
+	}
+	off, seq, kind = verifEvTriple(e)
+	return off, seq, kind, true
+}
+
+// BlockGet blocks until an event or a time-out event is available.
+func (x *VerifStream) BlockGet() (off int64, seq uint64, kind int) {
+	return verifEvTriple(x.st.blockGet())
+}
